@@ -20,7 +20,7 @@ fn marker_item(w: &World, marker: u64) -> Option<(u64, Vec<u8>)> {
     match marker {
         100..=199 => {
             let i = (marker - 100) as usize;
-            let (h, ix) = op_outpoint_key(i);
+            let (h, ix) = crate::builder::utxo_outpoint_key(i);
             let mut id = h;
             id.extend_from_slice(&ix.to_be_bytes());
             Some((0, id))
